@@ -99,7 +99,7 @@ __CPROVER_requires(IORA_TRUE && iora_exc == EXC_NONE && size <= DN_MAX_MSG && of
 __CPROVER_requires(__CPROVER_is_fresh(question, sizeof(*question)) && G_msg_size == size)
 __CPROVER_assigns(iora_exc, *question, G_name_end, G_name_start)
 /* Q1 QNAME (ending at G_name_end) is followed by exactly QTYPE(2) QCLASS(2); the question ends inside the message */
-__CPROVER_ensures(iora_exc == EXC_NONE ==> (__CPROVER_return_value <= size && __CPROVER_return_value == G_name_end + 4 && G_name_end > offset && G_name_end <= size && G_name_start == offset))
+__CPROVER_ensures(iora_exc == EXC_NONE ==> (G_name_start == offset && G_name_end > offset && G_name_end <= size && __CPROVER_return_value == G_name_end + 4 && __CPROVER_return_value <= size))
 /* Q2 QTYPE and QCLASS are the big-endian 16-bit fields right after the name */
 __CPROVER_ensures(iora_exc == EXC_NONE ==> question->qtype == U16BE(data, G_name_end))
 __CPROVER_ensures(iora_exc == EXC_NONE ==> question->qclass == U16BE(data, G_name_end + 2))
@@ -166,7 +166,7 @@ size_t parseQuestion_core_contract(const uint8_t *data, size_t offset, size_t si
 __CPROVER_requires(IORA_TRUE && iora_exc == EXC_NONE && size <= DN_MAX_MSG && offset <= size && __CPROVER_is_fresh(data, size))
 __CPROVER_requires(__CPROVER_is_fresh(question, sizeof(*question)) && G_msg_size == size)
 __CPROVER_assigns(iora_exc, *question, G_name_end, G_name_start)
-/* Q1 */ __CPROVER_ensures(iora_exc == EXC_NONE ==> (__CPROVER_return_value <= size && __CPROVER_return_value == G_name_end + 4 && G_name_end > offset && G_name_end <= size && G_name_start == offset))
+/* Q1 */ __CPROVER_ensures(iora_exc == EXC_NONE ==> (G_name_start == offset && G_name_end > offset && G_name_end <= size && __CPROVER_return_value == G_name_end + 4 && __CPROVER_return_value <= size))
 /* Q4 */ __CPROVER_ensures(iora_exc == EXC_NONE || iora_exc == EXC_DnsParseException)
 ;
 size_t parseResourceRecord5_core_contract(const uint8_t *data, size_t offset, size_t size, DnsResourceRecord *rr, size_t *rdataOffset)
